@@ -5,7 +5,9 @@
 (* A case is an overload set (2-4 signatures over a small type vocabulary, *)
 (* parameters of differing number / name / kind / default) and one call    *)
 (* (positional and keyword arguments, each of a declared type: a plain     *)
-(* class, a union or Any).                                                 *)
+(* class, a literal, a list[...] generic, Any, or a union whose members    *)
+(* are any of these -- including Any and list[Any] members, the inputs of  *)
+(* the "Any-used" bookkeeping of union decomposition).                     *)
 (*                                                                         *)
 (*   Impl*  transcribes pyanalyze/signature.py (file:line in comments):    *)
 (*          the two-pass loop of OverloadedSignature.check_call with its   *)
@@ -16,10 +18,12 @@
 (*          state machine (variable m) whose step function MStep is also   *)
 (*          iterated by the operator ImplResolve, so that the trace        *)
 (*          specification can run the same machine on recorded cases.      *)
-(*   Ref*   is the property: "first accepting overload" on concrete        *)
-(*          argument types, a union argument = every member, an Any        *)
-(*          argument = some unknown concrete type.  It knows nothing of    *)
-(*          loops, Any-flags or decomposition.                             *)
+(*   Ref*   is the property: "first accepting overload" on ground          *)
+(*          argument types, a union argument = every member (each member's *)
+(*          own call judged by the same rule), an Any-bearing member (Any, *)
+(*          list[Any]) = some unknown ground type; a member call whose     *)
+(*          unknown part can select overloads of different return types is *)
+(*          Any.  It knows nothing of loops, Any-flags or decomposition.   *)
 (*                                                                         *)
 (* Every operator takes the case as a parameter so that the same           *)
 (* definitions judge TLC-enumerated states and observations of the real    *)
@@ -39,6 +43,11 @@ Min(S) == CHOOSE x \in S : \A y \in S : x <= y
 (***************************************************************************)
 AllAtoms == {"int", "bool", "str", "none", "float", "object"}
 
+\* further single (non-union) type names:
+\*   list[int] list[str] list[any]   typing.List[...]   (element types without subclass relation,
+\*                                   so that the variance of list is not a question here)
+\*   L1 L2 La                        Literal[1] Literal[2] Literal["a"]
+\*   E, EA EB                        an enum class E(enum.Enum) with members A, B; Literal[E.A], Literal[E.B]
 Members(t) ==
     CASE t = "int" -> <<"int">>       [] t = "bool" -> <<"bool">>   [] t = "str" -> <<"str">>
       [] t = "none" -> <<"none">>     [] t = "float" -> <<"float">> [] t = "object" -> <<"object">>
@@ -52,9 +61,35 @@ Members(t) ==
       [] t = "float|str" -> <<"float", "str">>
       [] t = "int|str|none" -> <<"int", "str", "none">>
       [] t = "str|none|float" -> <<"str", "none", "float">>
+      \* generic, literal and enum members
+      [] t = "list[int]" -> <<"list[int]">>   [] t = "list[str]" -> <<"list[str]">>
+      [] t = "list[any]" -> <<"list[any]">>
+      [] t = "L1" -> <<"L1">>   [] t = "L2" -> <<"L2">>   [] t = "La" -> <<"La">>
+      [] t = "E" -> <<"E">>     [] t = "EA" -> <<"EA">>   [] t = "EB" -> <<"EB">>
+      \* unions with an Any-bearing member (either position)
+      [] t = "any|str" -> <<"any", "str">>
+      [] t = "str|any" -> <<"str", "any">>
+      [] t = "any|int" -> <<"any", "int">>
+      [] t = "any|none" -> <<"any", "none">>
+      [] t = "int|str|any" -> <<"int", "str", "any">>
+      [] t = "any|str|none" -> <<"any", "str", "none">>
+      [] t = "list[any]|str" -> <<"list[any]", "str">>
+      [] t = "str|list[any]" -> <<"str", "list[any]">>
+      [] t = "list[any]|list[str]" -> <<"list[any]", "list[str]">>
+      [] t = "any|list[int]" -> <<"any", "list[int]">>
+      \* unions of generic / literal / enum members
+      [] t = "list[int]|str" -> <<"list[int]", "str">>
+      [] t = "list[int]|list[str]" -> <<"list[int]", "list[str]">>
+      [] t = "L1|La" -> <<"L1", "La">>
+      [] t = "L1|L2" -> <<"L1", "L2">>
+      [] t = "L1|str" -> <<"L1", "str">>
+      [] t = "EA|EB" -> <<"EA", "EB">>
+      [] t = "EA|int" -> <<"EA", "int">>
 
 IsAnyName(t) == t = "any"
 IsUnionName(t) == Len(Members(t)) > 1
+\* a single type name in which Any occurs: the argument is (partly) unknown
+AnyBearing(mem) == mem \in {"any", "list[any]"}
 
 NameOrd(n) == CASE n = "x" -> 1 [] n = "y" -> 2 [] n = "z" -> 3
 
@@ -83,15 +118,27 @@ KwIndex(call, name) == IF \E i \in 1..Len(call) : call[i].kw = name
 (***************************************************************************)
 (***************************************************************************)
 
-\* assignability of a concrete class to a declared class (typing spec: nominal subtyping,
-\* everything is an object, int is acceptable where float is expected)
+\* Ground types: what one concrete argument value can be known as.  A class, a literal value
+\* (L1, L2: the ints 1, 2; La: the str "a"; EA, EB: the members of the enum class E) or a list of
+\* known element type (list[none] stands for "a list of anything else").
+Ground == AllAtoms \cup {"L1", "L2", "La", "E", "EA", "EB", "list[int]", "list[str]", "list[none]"}
+GroundLists == {"list[int]", "list[str]", "list[none]"}
+
+\* assignability of a ground type to one declared (non-union) type (typing spec: nominal subtyping,
+\* everything is an object, int is acceptable where float is expected, a literal is a value of its
+\* class, list[Any] is every list; only the identical list type otherwise)
 RefAtomSub(a, p) ==
     \/ a = p
     \/ p = "object"
+    \/ p = "any"
     \/ a = "bool" /\ p \in {"int", "float"}
     \/ a = "int" /\ p = "float"
+    \/ a \in {"L1", "L2"} /\ p \in {"int", "float"}
+    \/ a = "La" /\ p = "str"
+    \/ a \in {"EA", "EB"} /\ p = "E"
+    \/ a \in GroundLists /\ p = "list[any]"
 
-RefTypeAccepts(pty, a) == IsAnyName(pty) \/ \E q \in Range(Members(pty)) : RefAtomSub(a, q)
+RefTypeAccepts(pty, a) == \E q \in Range(Members(pty)) : RefAtomSub(a, q)
 
 \* CPython's argument binding for positional-or-keyword / keyword-only parameters and a call with
 \* positional and keyword arguments.  RefArgFor(sig, call, j) = index of the argument that fills
@@ -123,43 +170,72 @@ RefAccepts(sig, call, conc) ==
 RefFirst(sigs, call, conc) ==
     LET S == {i \in 1..Len(sigs) : RefAccepts(sigs[i], call, conc)} IN IF S = {} THEN 0 ELSE Min(S)
 
-\* a union argument stands for each of its members (the call must be fine for every one of them),
-\* an Any argument for some unknown class (the call is fine if it is for one of them)
+\* A union argument stands for each of its members (the call must be fine for every one of them);
+\* an Any-bearing member (Any, list[Any]) stands for some unknown ground type (the call is fine if it
+\* is for one of them).
+\*   RefMemberChoices  one member per argument (the "member's own call")
+\*   RefInstances      the ground instances of one member call
 UnionPos(call) == {i \in 1..Len(call) : IsUnionName(call[i].ty)}
-AnyPos(call) == {i \in 1..Len(call) : IsAnyName(call[i].ty)}
-RefUnionChoices(call) ==
-    {f \in [UnionPos(call) -> AllAtoms] : \A i \in UnionPos(call) : f[i] \in Range(Members(call[i].ty))}
-RefAnyChoices(call) == [AnyPos(call) -> AllAtoms]
-RefConc(call, u, s) ==
-    [i \in 1..Len(call) |-> IF i \in UnionPos(call) THEN u[i] ELSE IF i \in AnyPos(call) THEN s[i]
-                            ELSE Members(call[i].ty)[1]]
+RefHasAny(call) == \E i \in 1..Len(call) : \E mem \in Range(Members(call[i].ty)) : AnyBearing(mem)
 
-RefAccepted(c) ==
-    \A u \in RefUnionChoices(c.call) : \E s \in RefAnyChoices(c.call) :
-        RefFirst(c.sigs, c.call, RefConc(c.call, u, s)) # 0
+RECURSIVE SeqProduct(_)
+SeqProduct(ss) == IF ss = << >> THEN {<< >>}
+                  ELSE {Append(p, x) : p \in SeqProduct(SubSeq(ss, 1, Len(ss) - 1)), x \in ss[Len(ss)]}
+
+RefInstOf(mem) == CASE mem = "any" -> Ground [] mem = "list[any]" -> GroundLists [] OTHER -> {mem}
+RefMemberChoices(call) == SeqProduct([i \in 1..Len(call) |-> Range(Members(call[i].ty))])
+RefInstances(mc) == SeqProduct([i \in 1..Len(mc) |-> RefInstOf(mc[i])])
+
+\* the return labels a member call can have: one per overload that is the first match (clause 1) of
+\* some instance.  (Whether the arguments bind does not depend on the instance: evaluated once.)
+RefMemberRets(c, mc) ==
+    LET B == {i \in 1..Len(c.sigs) : RefBinds(c.sigs[i], c.call)}
+        typesOK(i, g) == \A j \in 1..Len(c.sigs[i].params) :
+                            LET a == RefArgFor(c.sigs[i], c.call, j)
+                            IN a = 0 \/ RefTypeAccepts(c.sigs[i].params[j].ty, g[a])
+        first(g) == LET S == {i \in B : typesOK(i, g)} IN IF S = {} THEN 0 ELSE Min(S)
+    IN {c.sigs[i].ret : i \in {first(g) : g \in RefInstances(mc)} \ {0}}
+
+\* (the same thing said with clause 1 itself; checked as invariant RefFirstIsClause1)
+RefMemberRetsByClause1(c, mc) ==
+    {c.sigs[i].ret : i \in {RefFirst(c.sigs, c.call, g) : g \in RefInstances(mc)} \ {0}}
+
+\* [member choice |-> its return labels], built once per case
+RefRetsMap(c) == [mc \in RefMemberChoices(c.call) |-> RefMemberRets(c, mc)]
+
+RefAccepted(c) == \A mc \in RefMemberChoices(c.call) : RefMemberRets(c, mc) # {}
 
 \* the return labels of every overload that is the first match of some instance of the call
-RefRets(c) ==
-    {c.sigs[i].ret : i \in {RefFirst(c.sigs, c.call, RefConc(c.call, u, s)) :
-                              u \in RefUnionChoices(c.call), s \in RefAnyChoices(c.call)} \ {0}}
+RefRets(c) == UNION {RefMemberRets(c, mc) : mc \in RefMemberChoices(c.call)}
+
+\* some member's own call is Any: the unknown part of that member can select overloads of different
+\* return types ("a member call that matches several overloads only through Any yields Any")
+RefMemberIsAny(c) == \E mc \in RefMemberChoices(c.call) : Cardinality(RefMemberRets(c, mc)) > 1
 
 \* The property as a predicate on a result r (modelled or observed); "ok" or the violated clause.
 \*   Raised              (observations only) the checker raised instead of giving a verdict
 \*   Verdict             diagnosed exactly when not accepted
 \*   FirstMatch          no Any, no union: the type is the first accepting overload's return type
-\*   UnionContains       one union argument: the type contains each member's own result type
-\*   AnyNeverSelectsOne  an Any argument: the type is Any, or contains the return type of every
-\*                       overload the unknown argument could select
+\*   UnionContains       one union argument: the type contains the result type of each member's own
+\*                       call; when a member's own call is Any (see RefMemberIsAny) only Any contains it
+\*   AnyNeverSelectsOne  an Any-bearing argument: the type is Any, or contains the return type of
+\*                       every overload the unknown part could select
 RefClause(c, r) ==
-    LET acc == RefAccepted(c)
-        hasAny == AnyPos(c.call) # {}
+    LET rm == RefRetsMap(c)
+        acc == \A mc \in DOMAIN rm : rm[mc] # {}                      \* = RefAccepted(c)
+        rets == UNION {rm[mc] : mc \in DOMAIN rm}                     \* = RefRets(c)
+        memberIsAny == \E mc \in DOMAIN rm : Cardinality(rm[mc]) > 1  \* = RefMemberIsAny(c)
+        hasAny == RefHasAny(c.call)
         hasUnion == UnionPos(c.call) # {}
     IN IF r.st \notin {"ok", "err"} THEN "Raised"          \* the checker raised an exception instead of giving a verdict
        ELSE IF (r.st = "ok") # acc THEN "Verdict"
        ELSE IF ~acc THEN "ok"
-       ELSE IF hasAny THEN (IF r.anyk # "" \/ RefRets(c) \subseteq Range(r.ty) THEN "ok" ELSE "AnyNeverSelectsOne")
-       ELSE IF hasUnion THEN (IF r.anyk = "" /\ RefRets(c) \subseteq Range(r.ty) THEN "ok" ELSE "UnionContains")
-       ELSE (IF r.anyk = "" /\ Len(r.ty) = 1 /\ Range(r.ty) = RefRets(c) THEN "ok" ELSE "FirstMatch")
+       ELSE IF hasAny THEN (IF r.anyk # "" THEN "ok"
+                            ELSE IF ~(rets \subseteq Range(r.ty)) THEN "AnyNeverSelectsOne"
+                            ELSE IF hasUnion /\ memberIsAny THEN "UnionContains"
+                            ELSE "ok")
+       ELSE IF hasUnion THEN (IF r.anyk = "" /\ rets \subseteq Range(r.ty) THEN "ok" ELSE "UnionContains")
+       ELSE (IF r.anyk = "" /\ Len(r.ty) = 1 /\ Range(r.ty) = rets THEN "ok" ELSE "FirstMatch")
 
 RefOK(c, r) == RefClause(c, r) = "ok"
 
@@ -206,6 +282,9 @@ ImplBind(sig, args) == ImplBindFrom(sig.params, args, 1, 0, << >>, {})
 
 \* --- Value.can_assign on the vocabulary: TypedValue -> TypeObject (mro plus the artificial bases of
 \* type_object.py:78-87: int and its subclasses also have the base float), KnownValue(None).
+\* A literal (KnownValue) on the right is accepted by its own class and that class's bases
+\* (TypedValue.can_assign value.py:819-828) and by the equal literal of the same type
+\* (KnownValue.can_assign value.py:582-593); a class on the right is never accepted by a literal.
 ImplMro(a) ==
     CASE a = "bool" -> {"bool", "int", "float", "object"}
       [] a = "int" -> {"int", "float", "object"}
@@ -213,25 +292,51 @@ ImplMro(a) ==
       [] a = "none" -> {"none", "object"}
       [] a = "float" -> {"float", "object"}
       [] a = "object" -> {"object"}
+      [] a = "L1" -> {"L1", "int", "float", "object"}
+      [] a = "L2" -> {"L2", "int", "float", "object"}
+      [] a = "La" -> {"La", "str", "object"}
+      [] a = "E" -> {"E", "object"}
+      [] a = "EA" -> {"EA", "E", "object"}
+      [] a = "EB" -> {"EB", "E", "object"}
 
-\* can_assign_and_used_any (value.py:3361): [ok, any]; pm = members of the parameter type,
-\* am = members of the argument.  AnyValue.can_assign (value.py:424) accepts everything and does
-\* not record; Value.can_assign / MultiValuedValue.can_assign (value.py:102, :2008) record
-\* "Any used" when the right-hand side is Any; a union on the right is checked member by member
-\* (value.py:105, :1995), a union on the left accepts what one member accepts (:2025).
+ImplIsList(t) == t \in {"list[int]", "list[str]", "list[any]"}
+ImplElem(t) == CASE t = "list[int]" -> "int" [] t = "list[str]" -> "str" [] t = "list[any]" -> "any"
+
+\* one member of the parameter type against one member of the argument: [ok, any]
+\*   AnyValue.can_assign (value.py:424) accepts everything and does not record;
+\*   Value.can_assign (value.py:102) records "Any used" when the right-hand side is Any;
+\*   GenericValue.can_assign (value.py:1042-1062) compares the type arguments with can_assign, so
+\*   list[int] <- list[Any] succeeds and records, list[Any] <- list[int] succeeds and does not.
+ImplMemAssign(p, a) ==
+    IF p = "any" THEN [ok |-> TRUE, any |-> FALSE]
+    ELSE IF a = "any" THEN [ok |-> TRUE, any |-> TRUE]
+    ELSE IF ImplIsList(p)
+    THEN IF ~ImplIsList(a) THEN [ok |-> FALSE, any |-> FALSE]
+         ELSE IF ImplElem(p) = "any" THEN [ok |-> TRUE, any |-> FALSE]
+         ELSE IF ImplElem(a) = "any" THEN [ok |-> TRUE, any |-> TRUE]
+         ELSE [ok |-> ImplElem(p) \in ImplMro(ImplElem(a)), any |-> FALSE]
+    ELSE IF ImplIsList(a) THEN [ok |-> p = "object", any |-> FALSE]
+    ELSE [ok |-> p \in ImplMro(a), any |-> FALSE]
+
+\* can_assign_and_used_any (value.py:3371): [ok, any]; pm = members of the parameter type,
+\* am = members of the argument.  A union on the right is checked member by member
+\* (value.py:105, :2001), a union on the left tries every member and accepts what one of them
+\* accepts (:2030-2040); the "Any used" flag is one bit of the context that stays set.
+ImplMemOK(pm, a) == \E p \in Range(pm) : ImplMemAssign(p, a).ok
+ImplMemAny(pm, a) == \E p \in Range(pm) : ImplMemAssign(p, a).ok /\ ImplMemAssign(p, a).any
 ImplCanAssign(pm, am) ==
-    IF pm = <<"any">> THEN [ok |-> TRUE, any |-> FALSE]
-    ELSE IF am = <<"any">> THEN [ok |-> TRUE, any |-> TRUE]
-    ELSE [ok |-> \A a \in Range(am) : \E p \in Range(pm) : p \in ImplMro(a), any |-> FALSE]
+    IF \A a \in Range(am) : ImplMemOK(pm, a)
+    THEN [ok |-> TRUE, any |-> \E a \in Range(am) : ImplMemAny(pm, a)]
+    ELSE [ok |-> FALSE, any |-> FALSE]
 
-\* decompose_union (signature.py:2748): only for a MultiValuedValue; the members the parameter
-\* accepts are removed, the rest is the remaining value; None when no member is accepted
+\* decompose_union (signature.py:2782): only for a MultiValuedValue; the members the parameter
+\* accepts are removed, the rest is the remaining value; None when no member is accepted.
+\* any = union_used_any: some accepted member was accepted thanks to Any (:2795-2802).
 ImplDecompose(pm, am) ==
-    LET okm(a) == ImplCanAssign(pm, <<a>>).ok
-        rest == SelectSeq(am, LAMBDA a : ~okm(a))
-    IN IF Len(am) > 1 /\ \E a \in Range(am) : okm(a)
-       THEN [some |-> TRUE, rem |-> rest]
-       ELSE [some |-> FALSE, rem |-> am]
+    IF Len(am) > 1 /\ \E a \in Range(am) : ImplMemOK(pm, a)
+    THEN [some |-> TRUE, rem |-> SelectSeq(am, LAMBDA a : ~ImplMemOK(pm, a)),
+          any |-> \E a \in Range(am) : ImplMemAny(pm, a)]
+    ELSE [some |-> FALSE, rem |-> am, any |-> FALSE]
 
 \* --- Signature.check_call_with_bound_args (signature.py:1239): the loop over the bound
 \* parameters (:1285-1317).  acc = [err, any, has, args, ov]:  had_error, used_any, whether
@@ -247,12 +352,18 @@ ImplCheckFrom(ps, pos, orig, j, acc) ==
              d == ImplDecompose(pm, am)
          IN IF r.ok
             THEN ImplCheckFrom(ps, pos, orig, j + 1, [acc EXCEPT !.any = @ \/ r.any])        \* :674, :1299
-            ELSE IF acc.ov /\ d.some                                          \* :659-664
+            ELSE IF acc.ov /\ d.some                                          \* :659-665 the triple of decompose_union
             THEN ImplCheckFrom(ps, pos, orig, j + 1,
-                     [acc EXCEPT !.has = TRUE,                                \* :1301-1313
+                     \* three independent statements per parameter (:1314-1334): tv_map is None /
+                     \* param_used_any / remaining_value.  A decomposed parameter can carry BOTH
+                     \* "matched a strict subset of the union" and "used Any to match".
+                     \* (Bug = "elif_chain": the three tests as one if/elif chain -- the Any flag of
+                     \* the decomposed parameter is dropped; sensitivity self-test.)
+                     [acc EXCEPT !.any = IF Bug = "elif_chain" THEN @ ELSE @ \/ d.any,   \* :1316
+                                 !.has = TRUE,                                \* :1318-1332
                                  !.args = [orig EXCEPT ![pos[j]].mem = d.rem],
-                                 !.ov = FALSE])                               \* :1317 once per call
-            ELSE ImplCheckFrom(ps, pos, orig, j + 1, [acc EXCEPT !.err = TRUE])             \* :665-673, :1297
+                                 !.ov = FALSE])                               \* :1334 once per call
+            ELSE ImplCheckFrom(ps, pos, orig, j + 1, [acc EXCEPT !.err = TRUE])             \* :666-674, :1314
 
 \* Signature.check_call_preprocessed (signature.py:1219) -> CallReturn, classified as in the loop
 \* of OverloadedSignature.check_call (:2393-2417)
@@ -460,6 +571,10 @@ PropertyHoldsStrict == stage = "done" => (InProperty(case) => RefOK(case, m.res)
 
 \* the machine and its operator form agree (the trace specification uses the operator)
 MachineIsOperator == stage = "done" => m = ImplResolve(case)
+
+\* the pre-bound form of the oracle equals clause 1 applied to every instance
+RefFirstIsClause1 == stage = "done" =>
+    \A mc \in RefMemberChoices(case.call) : RefMemberRets(case, mc) = RefMemberRetsByClause1(case, mc)
 
 \* the binder model and the CPython reference agree on the modelled parameter kinds
 BinderAgrees == stage = "done" =>
